@@ -139,7 +139,7 @@ def hard_target_problems(at, thorough):
     import sciris as sc
     from atomica.optimization import SpendingAdjustment, Optimization, MinimizeMeasurable, AtLeastMeasurable, AtMostMeasurable, IncreaseByMeasurable, DecreaseByMeasurable
 
-    for model in (["udt"] + (["hiv"] if thorough else [])):
+    for model in ["udt", "hiv"]:
         P = at.demo(model, do_run=False)
         ps, pg = P.parsets[0], P.progsets[0]
         start = 2018.0
@@ -157,12 +157,15 @@ def hard_target_problems(at, thorough):
             return i
 
         comps = [c for c in P.framework.comps.index if P.framework.comps.at[c, "is sink"] != "y" and P.framework.comps.at[c, "is source"] != "y" and P.framework.comps.at[c, "is junction"] != "y"]
-        for t in ([2021.0], [2019.0, 2022.0]):
+        allpops = list(ps.pop_names)
+        # (hiv has two populations: there the targets carry a population selection and are judged over that population only)
+        sel = [allpops[0]] if len(allpops) > 1 else None
+        for t in ([2021.0], [2019.0, 2022.0]) if (thorough or sel is None) else ([2021.0],):
             done = set()
             for comp in comps:
-                vb = output_sum(at, P, ps, pg, ins0, comp, t)
-                v0 = output_sum(at, P, ps, pg, with_spend(1.5), comp, t)
-                vl = output_sum(at, P, ps, pg, with_spend(0.25), comp, t)
+                vb = output_sum(at, P, ps, pg, ins0, comp, t, sel)
+                v0 = output_sum(at, P, ps, pg, with_spend(1.5), comp, t, sel)
+                vl = output_sum(at, P, ps, pg, with_spend(0.25), comp, t, sel)
                 if not (abs(v0 - vl) > 1e-6 * max(1.0, abs(v0)) and abs(v0 - vb) > 1e-6 * max(1.0, abs(v0))):
                     continue  # spending does not move this output
                 up = v0 > vl
@@ -170,20 +173,20 @@ def hard_target_problems(at, thorough):
                     continue
                 done.add(up)
                 if up:
-                    targets = [("at least", AtLeastMeasurable(comp, t, (v0 + vl) / 2), lambda v, th=(v0 + vl) / 2: v >= th),
-                               ("increase by (abs)", IncreaseByMeasurable(comp, t, (v0 - vb) / 2, target_type="abs"), lambda v, th=vb + (v0 - vb) / 2: v >= th),
-                               ("increase by (frac)", IncreaseByMeasurable(comp, t, (v0 - vb) / (2 * vb)), lambda v, th=vb * (1 + (v0 - vb) / (2 * vb)): v >= th * (1 - 1e-12))]
+                    targets = [("at least", AtLeastMeasurable(comp, t, (v0 + vl) / 2, pop_names=sel), lambda v, th=(v0 + vl) / 2: v >= th),
+                               ("increase by (abs)", IncreaseByMeasurable(comp, t, (v0 - vb) / 2, pop_names=sel, target_type="abs"), lambda v, th=vb + (v0 - vb) / 2: v >= th),
+                               ("increase by (frac)", IncreaseByMeasurable(comp, t, (v0 - vb) / (2 * vb), pop_names=sel), lambda v, th=vb * (1 + (v0 - vb) / (2 * vb)): v >= th * (1 - 1e-12))]
                 else:
-                    targets = [("at most", AtMostMeasurable(comp, t, (v0 + vl) / 2), lambda v, th=(v0 + vl) / 2: v <= th),
-                               ("decrease by (abs)", DecreaseByMeasurable(comp, t, (vb - v0) / 2, target_type="abs"), lambda v, th=vb - (vb - v0) / 2: v <= th),
-                               ("decrease by (frac)", DecreaseByMeasurable(comp, t, (vb - v0) / (2 * vb)), lambda v, th=vb * (1 - (vb - v0) / (2 * vb)): v <= th * (1 + 1e-12))]
+                    targets = [("at most", AtMostMeasurable(comp, t, (v0 + vl) / 2, pop_names=sel), lambda v, th=(v0 + vl) / 2: v <= th),
+                               ("decrease by (abs)", DecreaseByMeasurable(comp, t, (vb - v0) / 2, pop_names=sel, target_type="abs"), lambda v, th=vb - (vb - v0) / 2: v <= th),
+                               ("decrease by (frac)", DecreaseByMeasurable(comp, t, (vb - v0) / (2 * vb), pop_names=sel), lambda v, th=vb * (1 - (vb - v0) / (2 * vb)): v <= th * (1 + 1e-12))]
                 for tname, hard, met in targets:
                     adjs = [SpendingAdjustment(n, start, "rel", 0.25, 3.0) for n in names]
                     meas = [MinimizeMeasurable(n, [start, start + 1.0]) for n in names] + [hard]
                     opt = Optimization(name="o", adjustments=adjs, measurables=meas, maxiters=12 if thorough else 8, method="asd")
                     finite = [(n, [start, start + 1.0], None, 1.0) for n in names]
-                    judge = lambda ins, comp=comp, t=t, met=met: bool(met(output_sum(at, P, ps, pg, ins, comp, t)))
-                    yield dict(model=model, target=tname, output=comp, t=t), P, ps, pg, ins0, opt, x0, names, start, finite, judge
+                    judge = lambda ins, comp=comp, t=t, met=met, sel=sel: bool(met(output_sum(at, P, ps, pg, ins, comp, t, sel)))
+                    yield dict(model=model, target=tname, output=comp, t=t, pops=sel), P, ps, pg, ins0, opt, x0, names, start, finite, judge
 
 
 def calib_problem(at, model="udt", dt=None):
